@@ -49,7 +49,10 @@ inductive UEv where
   | stopFinish                   -- wait-group reached zero: socket.Close(), result delivered
   deriving DecidableEq, Repr
 
-def Udp.wg (s : Udp) : Nat := (if s.serving then 1 else 0) + s.handlers + s.posthooks
+/-- the wait-group count: the serving goroutine holds one from `NewFrontend` on (repair D19: it is counted before it
+is started) until it returns — so also while it has not reached `serve()` yet —, every handler and every
+post-response hook one each -/
+def Udp.wg (s : Udp) : Nat := (if !s.served || s.serving then 1 else 0) + s.handlers + s.posthooks
 
 /-- one protocol step; `none` = not enabled in this state -/
 def Udp.step (s : Udp) : UEv → Option Udp
@@ -68,6 +71,18 @@ def Udp.run (s : Udp) : List UEv → Option Udp
   | e :: es => match s.step e with
     | none => none
     | some s' => Udp.run s' es
+
+/-- the protocol before the repair D19: the serving goroutine registers with the wait-group only inside `serve()`,
+so a `Stop` that comes first finds nothing to wait for -/
+def UdpPreD19.step (s : Udp) : UEv → Option Udp
+  | .stopFinish => if s.stopPhase = 1 ∧ (if s.serving then 1 else 0) + s.handlers + s.posthooks = 0 then some { s with socketOpen := false, stopPhase := 2 } else none
+  | e => s.step e
+
+def UdpPreD19.run (s : Udp) : List UEv → Option Udp
+  | [] => some s
+  | e :: es => match UdpPreD19.step s e with
+    | none => none
+    | some s' => UdpPreD19.run s' es
 
 /-- the protocol before the repair: post-response hooks are not counted by the wait-group -/
 def UdpOld.step (s : Udp) : UEv → Option Udp
